@@ -366,6 +366,21 @@ func checkC15(c *Ctx) {
 		// ---- R15b per package
 		pkgBad := 0
 		nCalls := 0
+		// an unordered iterator handed straight to slices.Sorted* is the collect-then-sort idiom in one call
+		sortedArg := map[*ast.CallExpr]bool{}
+		for _, f := range pk.Syntax {
+			ast.Inspect(f, func(n ast.Node) bool {
+				if x, ok := n.(*ast.CallExpr); ok && len(x.Args) >= 1 {
+					if cal := Callee(info, x); cal != nil && cal.Pkg() != nil && cal.Pkg().Path() == "slices" &&
+						cal.Name() == "Sorted" { // a total order on the elements; SortedFunc may tie
+						if inner, ok := ast.Unparen(x.Args[0]).(*ast.CallExpr); ok {
+							sortedArg[inner] = true
+						}
+					}
+				}
+				return true
+			})
+		}
 		for _, f := range pk.Syntax {
 			for _, d := range f.Decls {
 				fd, _ := d.(*ast.FuncDecl)
@@ -374,7 +389,7 @@ func checkC15(c *Ctx) {
 					case *ast.CallExpr:
 						nCalls++
 						if cal := Callee(info, x); cal != nil {
-							if amb, kind := isAmbient(cal); amb {
+							if amb, kind := isAmbient(cal); amb && !(sortedArg[x] && cal.Pkg().Path() == "maps") {
 								// os.Stdin/Stdout plumbing in main is not an ambient *source*
 								pkgBad++
 								r.Bad("R15b", fmt.Sprintf("%s calls %s", c.enclosingFunc(pk, x.Pos()), FuncName(cal)), c.P.Pos(x.Pos()),
